@@ -896,17 +896,33 @@ def run(ctx):
 
 
 MANIFEST = dict(
-    technique="Coq proof (loop invariant pos = 8*byteoffset + bitoffset between a transcription of cffi's layout code "
-              "and an independent psABI bit-cursor specification, unbounded field lists and nesting) + three-way "
-              "differential correspondence cffi / model / spec / gcc",
+    technique="Coq proof (two loop invariants over a transcription of cffi's layout code: pos = 8*byteoffset + bitoffset "
+              "against an independent psABI bit-cursor specification, and 'every emitted field lies inside the object / "
+              "fields are consecutive'; unbounded field lists and nesting) + two regenerated Python-side facts + "
+              "four-way differential correspondence cffi / model / spec / gcc",
     text="Proof: for every declaration tree of the property's class (any field count, order, nesting; bit-fields of "
          "any integer type and width; unions; anonymous members; flexible arrays; packed/pack=N without bit-fields) "
          "in which no struct/union has compiler size 0, the model of b_complete_struct_or_union computes the size, "
          "alignment, every non-bit-field offset and every bit-field's absolute bit range that the gcc specification "
-         "gives, and rejects nothing (C01_agrees, C01_total). Zero-size aggregates are refuted by witness "
-         "(C01_zero_size_refuted; known finding zero_size_aggregate). Model and spec are tied to the C code and to gcc "
-         "by running all four on the same declarations on every run.",
-    note="Trusted: Coq kernel; hand model C01/Model.v and spec C01/Spec.v (tied by differential testing, not by "
-         "translation); gcc as the platform compiler; x86-64 SysV only. Value conversion of 64-bit-wide bit-fields is "
+         "gives (C01_agrees; C01_agrees_any_type for arrays and `T x[]`), and rejects nothing (C01_total, zero-size "
+         "aggregates included). C01_field_step_invariant / C01_field_step_within are the one-iteration invariants. "
+         "C01_fields_within_object: for every tree of the class whose bit-field types have size <= alignment, every "
+         "emitted field (anonymous members' fields included) has offset >= 0, its storage (the whole unit for a "
+         "bit-field) ends inside ffi.sizeof, and a bit-field has width >= 1, shift >= 0 and all bits inside its unit "
+         "(the `placement` / `off + size <= length` premises of C02, C03, C20); C01_fields_within_needs_size_le_align "
+         "shows that hypothesis is needed (model-level, not an x86-64 type). C01_fields_disjoint: in a struct without "
+         "(anonymous) unions the fields occupy consecutive, pairwise disjoint absolute bit ranges inside the object. "
+         "Zero-size aggregates are refuted by witness (C01_zero_size_refuted, C01_zero_size_refuted_offsets; known "
+         "finding zero_size_aggregate). Regenerated on every run (coq/C01/Gen.v, Python ast matchers, fail-closed): "
+         "cparser assigns tp.packed from the DEFINING cdef's options (C01_defining_cdef_options) and FFI._cdef's "
+         "re-completion loop iterates the growing list (C01_completion_loop_reaches_lazy_types) — these two are "
+         "source-shape alarms proved by reflexivity, not behavioural theorems. The C layout function itself is "
+         "hand-modelled: model and spec are tied to the C code and to gcc by running all four on the same "
+         "declarations on every run (a sha1 fingerprint of the C function only switches to the thorough tier).",
+    note="Trusted: Coq kernel; hand model C01/Model.v and spec C01/Spec.v (the C function is tied by differential "
+         "testing, not by translation; only the two Python-side facts in C01/Gen.v are regenerated); gcc as the "
+         "platform compiler; x86-64 SysV only (MSVC/ARM/big-endian branches: correspondence stream 'alt' only); "
+         "all arithmetic in Z (no bound on sizes: overflow of Py_ssize_t/int in the C code is not modelled); _Bool "
+         "widths 2..8 are in the quantified superset. Value conversion of 64-bit-wide bit-fields is "
          "C02's subject: C01 compares placement (typeof(T).fields) and, for widths < 64, the bytes of an all-ones store.",
     design_ref="DESIGN.md §4 C01")
